@@ -20,7 +20,8 @@ class JobRec:
                  "context_hash", "handoffs", "consumed", "released", "outcome", "finalized",
                  "was_cached", "call_hash", "created_seq", "settled_seq", "limits", "options",
                  "exec_count", "prov", "cache_scope", "children", "status", "execution_id",
-                 "parent_key", "pre_call_hash", "main_resolved", "bound_args", "arg_hashes")
+                 "parent_key", "pre_call_hash", "main_resolved", "bound_args", "arg_hashes",
+                 "reported_seq", "call_hash_at_report")
 
     def __init__(self, id: str):
         self.id = id
@@ -50,6 +51,8 @@ class JobRec:
         self.execution_id = None
         self.parent_key = None
         self.pre_call_hash = None
+        self.reported_seq = None
+        self.call_hash_at_report = None
         self.main_resolved = False
         self.bound_args = None
         self.arg_hashes = None
@@ -253,7 +256,13 @@ def recording(w: World, rec: Recorder):
         def maker(orig):
             def wrapper(self, job, *a, **k):
                 if job is not None:
-                    w.event("report-" + kind, job.id[:8])
+                    seq = w.event("report-" + kind, job.id[:8])
+                    r = rec.rec(job)
+                    if r.reported_seq is None:
+                        # (a job served by the cache / CSE already carries its call hash when it is
+                        # reported, i.e. before it is resolved)
+                        r.reported_seq = seq
+                        r.call_hash_at_report = getattr(job, "call_hash", None)
                     for cb in rec.callbacks.get("report", []):
                         cb(self, job, kind)
                 return orig(self, job, *a, **k)
